@@ -10,7 +10,7 @@ import common as C
 
 META = dict(
     rule='(1) random cross-section tables (2..4 temperatures, 2..5 pressures, 3..8 wavenumbers) written as pickle '
-         '(bar), HDF5 (bar, Pa, kPa, mbar, atm, torr, dbar as the declared unit) and Exo-Transmit text (blocks in random order), under '
+         '(bar), HDF5 (bar, Pa, kPa, hPa, MPa, mPa, mbar, Mbar, kbar, atm, torr, dbar as the declared unit, each at least once per run) and Exo-Transmit text (blocks in random order), under '
          'file names with isotopologue prefixes and resolution suffixes; (2) k-tables as pickle and HDF5; (3) CIA '
          'tables as pickle and as HITRAN text with one or two wavenumber ranges covering different temperatures; (4) '
          'random strings through sanitize_molecule_string; (5) histories of 4..14 cache operations (get, set '
@@ -36,7 +36,17 @@ META = dict(
 )
 
 HEADER = C.HEADER_Q + 'From TV Require Import Model_C14 Exec_C14.\nOpen Scope string_scope.\n'
-UNITS = {'bar': 1e5, 'Pa': 1.0, 'kPa': 1000.0, 'mbar': 100.0, 'atm': 101325.0, 'torr': 101325.0 / 760.0, 'dbar': 1e4}
+UNITS = {'bar': 1e5, 'Pa': 1.0, 'kPa': 1000.0, 'mbar': 100.0, 'atm': 101325.0, 'torr': 101325.0 / 760.0, 'dbar': 1e4,
+         # SI prefixes are case-sensitive: megabar / millibar, megapascal / millipascal
+         'Mbar': 1e11, 'MPa': 1e6, 'mPa': 1e-3, 'hPa': 100.0, 'kbar': 1e8}
+_unit_turn = [0]
+
+
+def pick_unit(rng):
+    """every declared unit is used at least once per run (in turn), then at random"""
+    names = list(UNITS)
+    _unit_turn[0] += 1
+    return names[_unit_turn[0] - 1] if _unit_turn[0] <= len(names) else rng.choice(names)
 
 
 def coq_str(s):
@@ -120,7 +130,7 @@ def part_formats(ctx, tmp):
         d = os.path.join(tmp, 'f%d' % n)
         for sub in ('pk', 'h5', 'exo'):
             os.makedirs(os.path.join(d, sub))
-        unit = rng.choice(list(UNITS))
+        unit = pick_unit(rng)
         pk = os.path.join(d, 'pk', prefix + suffix + '.pickle')
         h5 = os.path.join(d, 'h5', prefix + '_x.h5')
         ex = os.path.join(d, 'exo', 'opac' + mol + '.dat')
@@ -219,7 +229,7 @@ def part_ktables(ctx, tmp):
         w = np.array([rng.uniform(0.1, 1) for _ in range(ng)])
         w /= w.sum()
         mol = rng.choice(['H2O', 'CH4', 'CO'])
-        unit = rng.choice(list(UNITS))
+        unit = pick_unit(rng)
         d = os.path.join(tmp, 'k%d' % n)
         os.makedirs(d)
         pk = os.path.join(d, mol + '.R100.ktable.pickle')
